@@ -8,6 +8,7 @@ import (
 	"runtime"
 	"sync"
 	"testing"
+	"time"
 
 	"github.com/pion/transport/v3/packetio"
 	"pgregory.net/rapid"
@@ -15,7 +16,7 @@ import (
 	"verifharness/ev"
 )
 
-const ruleC06Conc = "free-running concurrent variant: 1..3 writer goroutines (1..40 tagged packets each, sizes 0..3000 with some up to 40000, slice overwritten after Write) against 1..2 reader goroutines, perturbed by a rapid-drawn table of Gosched counts; Close after the writers finish, readers drain to EOF; oracle: every packet read is byte-identical to a written one, none twice, none lost, per-writer order preserved in every reader's sequence; non-trivial = >=2 goroutines on one side and >=10 packets; distinct by hash of the plan (sizes, yields)"
+const ruleC06Conc = "free-running concurrent variant: 1..3 writer goroutines (1..40 tagged packets each, sizes 0..3000 with some up to 40000, slice overwritten after Write; in a quarter of the cases packets of 4200..20000 bytes through a size limit that admits two of them, writers retrying while the ring is full) against 1..2 reader goroutines, perturbed by a rapid-drawn table of Gosched counts; Close after the writers finish, readers drain to EOF; oracle: every packet read is byte-identical to a written one, none twice, none lost, per-writer order preserved in every reader's sequence; non-trivial = >=2 goroutines on one side and >=10 packets; distinct by hash of the plan (sizes, yields)"
 
 type readPkt struct {
 	writer, seq int
@@ -33,12 +34,23 @@ func TestC06Concurrent(t *testing.T) {
 		}
 		plans := make([]plan, nw)
 		total := 0
+		// tight: large packets through a ring whose size limit admits two of them but not
+		// three, writers retrying while it is full - the bytes a Read has just released are
+		// reused by the next Write at once
+		tight := rapid.IntRange(0, 3).Draw(t, "tight") == 0
+		maxSz := 0
 		for w := range plans {
 			n := rapid.IntRange(1, 40).Draw(t, "n")
 			for i := 0; i < n; i++ {
 				sz := rapid.IntRange(0, 3000).Draw(t, "sz")
 				if rapid.IntRange(0, 19).Draw(t, "big") == 0 {
 					sz = rapid.IntRange(3000, 40000).Draw(t, "bsz")
+				}
+				if tight {
+					sz = rapid.IntRange(4200, 20000).Draw(t, "tsz")
+				}
+				if sz > maxSz {
+					maxSz = sz
 				}
 				if sz < 8 {
 					sz = 8 // room for the tag
@@ -60,6 +72,10 @@ func TestC06Concurrent(t *testing.T) {
 		c.Labelf("writers=%d/readers=%d", nw, nr)
 
 		b := packetio.NewBuffer()
+		if tight {
+			c.Label("tight-ring")
+			b.SetLimitSize(2*(maxSz+2) + 100)
+		}
 		serial := func(w, i int) uint64 { return uint64(w)<<32 | uint64(i) }
 		var wg sync.WaitGroup
 		werr := make([]error, nw)
@@ -69,7 +85,11 @@ func TestC06Concurrent(t *testing.T) {
 				defer wg.Done()
 				for i, sz := range plans[w].sizes {
 					p := Payload(serial(w, i), sz)
-					if n, err := b.Write(p); err != nil || n != sz {
+					n, err := b.Write(p)
+					for limit := time.Now().Add(5 * time.Second); tight && errors.Is(err, packetio.ErrFull) && time.Now().Before(limit); n, err = b.Write(p) {
+						runtime.Gosched() // full: the readers will make room
+					}
+					if err != nil || n != sz {
 						werr[w] = fmt.Errorf("writer %d packet %d (%d bytes): n=%d err=%v", w, i, sz, n, err)
 						return
 					}
